@@ -217,10 +217,19 @@ func DrawTrigger(t *rapid.T, w *world.World, o GenOpts) M {
 					"extra": M{"code": i + 1, "name": name, "only_" + name: true}}
 			}
 		}
-		tr["run_summary"] = M{
+		summary := M{
 			"uuid": world.UUID("run", 99), "flow": M{"uuid": world.UUID("flow", 50), "name": "Parent Flow"}, "contact": parentContact, "status": "active",
 			"results": results,
 		}
+		// the parent's flow is one of this world's flows or one the assets do not have; its contact is optional
+		if len(w.Flows) > 0 && rapid.Bool().Draw(t, "parentflowknown") {
+			pf := w.Flows[rapid.IntRange(0, len(w.Flows)-1).Draw(t, "parentflow")]
+			summary["flow"] = M{"uuid": pf.UUID, "name": pf.Name}
+		}
+		if rapid.IntRange(0, 2).Draw(t, "parentnocontact") == 0 {
+			delete(summary, "contact")
+		}
+		tr["run_summary"] = summary
 	}
 	return tr
 }
